@@ -41,16 +41,21 @@ func genC13(t *rapid.T) *c13Case {
 	c.Partitions = rapid.SampledFrom([]int{7, 13, 31}).Draw(t, "partitions")
 	n := rapid.IntRange(1, 6).Draw(t, "events")
 	for i := 0; i < n; i++ {
-		c.Events = append(c.Events, c13Event{Ev: rapid.SampledFrom([]string{"join", "join", "leave", "kill", "coordleave", "rejoin"}).Draw(t, "ev"), Pick: rapid.IntRange(0, 5).Draw(t, "pick")})
+		c.Events = append(c.Events, c13Event{Ev: rapid.SampledFrom([]string{"join", "join", "leave", "kill", "coordleave", "rejoin", "restart"}).Draw(t, "ev"), Pick: rapid.IntRange(0, 5).Draw(t, "pick")})
 	}
 	return c
 }
 
 // vStartMemberAt starts a member on a given RESP port (re-join under the same address).
-func vStartMemberAt(o vOpts, peers []string, port int) (*vMember, error) {
+func vStartMemberAt(o vOpts, peers []string, port, gossipPort int) (*vMember, error) {
 	c := vConfig(o)
 	c.MemberlistConfig.Label = vLabelFor(peers)
 	c.BindPort = port
+	if gossipPort != 0 {
+		// a restart of the same installation: same gossip address as well
+		c.MemberlistConfig.BindPort = gossipPort
+		c.MemberlistConfig.AdvertisePort = gossipPort
+	}
 	c.Peers = append([]string(nil), peers...)
 	if err := c.Sanitize(); err != nil {
 		return nil, err
@@ -286,11 +291,35 @@ func runC13(c *c13Case) (v *vcommon.Violation, nontrivial, inconclusive bool) {
 			port := old.cfg.BindPort
 			// the address must be free again
 			time.Sleep(50 * time.Millisecond)
-			m, err := vStartMemberAt(opts, cl.memberlistAddrs(), port)
+			m, err := vStartMemberAt(opts, cl.memberlistAddrs(), port, 0)
 			if err != nil {
 				return nil, nontrivial, true
 			}
 			cl.members = append(cl.members, m)
+			nontrivial = true
+		case "restart":
+			// a crash and an immediate restart under the same addresses, before the failure detector has
+			// declared the member dead: the others see the same name come back with a new identity
+			if len(live) <= 1 {
+				continue
+			}
+			victim := live[ev.Pick%len(live)]
+			if victim == coord {
+				coordChange = true
+			}
+			_, gp, err := net.SplitHostPort(victim.db.rt.Discovery().LocalNode().Address())
+			if err != nil {
+				return nil, nontrivial, true
+			}
+			gossipPort, _ := strconv.Atoi(gp)
+			departed[victim.db.rt.This().ID] = victim.name
+			cl.kill(victim)
+			m, err := vStartMemberAt(opts, cl.memberlistAddrs(), victim.cfg.BindPort, gossipPort)
+			if err != nil {
+				return nil, nontrivial, true
+			}
+			cl.members = append(cl.members, m)
+			leaves++
 			nontrivial = true
 		}
 		log0 = append(log0, fmt.Sprintf("%d %s -> %d live", i, kind, len(cl.live())))
